@@ -338,6 +338,15 @@ func (rpc *RPC) LogValue() slog.Value {
 // returned as an oversized RPC. The caller should filter out oversized RPCs.
 func (rpc *RPC) split(limit int) iter.Seq[RPC] {
 	return func(yield func(RPC) bool) {
+		// Never hand out an RPC that carries nothing.
+		emit := yield
+		yield = func(part RPC) bool {
+			if rpcIsEmpty(&part) {
+				return true
+			}
+			return emit(part)
+		}
+
 		nextRPC := RPC{from: rpc.from}
 
 		{
@@ -393,6 +402,27 @@ func (rpc *RPC) split(limit int) iter.Seq[RPC] {
 		}
 		// We have to split the RPC into multiple parts
 		nextRPC = RPC{from: rpc.from}
+
+		// The fields that appear at most once go first.
+		nextRPC.Partial = rpc.Partial
+		if rpc.TestExtension != nil {
+			if nextRPC.TestExtension = rpc.TestExtension; nextRPC.Size() > limit {
+				nextRPC.TestExtension = nil
+				if !yield(nextRPC) {
+					return
+				}
+				nextRPC = RPC{RPC: pb.RPC{TestExtension: rpc.TestExtension}, from: rpc.from}
+			}
+		}
+		if ext := rpc.GetControl().GetExtensions(); ext != nil {
+			if nextRPC.Control = (&pb.ControlMessage{Extensions: ext}); nextRPC.Size() > limit {
+				nextRPC.Control = nil
+				if !yield(nextRPC) {
+					return
+				}
+				nextRPC = RPC{RPC: pb.RPC{Control: &pb.ControlMessage{Extensions: ext}}, from: rpc.from}
+			}
+		}
 
 		// Merge/Append Subscriptions
 		for _, sub := range rpc.Subscriptions {
@@ -499,6 +529,33 @@ func (rpc *RPC) split(limit int) iter.Seq[RPC] {
 					}
 				}
 			}
+
+			for _, idontwant := range ctl.GetIdontwant() {
+				if len(nextRPC.Control.Idontwant) == 0 {
+					// Like IWANT, a single IDONTWANT is enough since there are no topic IDs.
+					newIDontWant := &pb.ControlIDontWant{}
+					if nextRPC.Control.Idontwant = append(nextRPC.Control.Idontwant, newIDontWant); nextRPC.Size() > limit {
+						nextRPC.Control.Idontwant = nextRPC.Control.Idontwant[:len(nextRPC.Control.Idontwant)-1]
+						if !yield(nextRPC) {
+							return
+						}
+						nextRPC = RPC{RPC: pb.RPC{Control: &pb.ControlMessage{
+							Idontwant: []*pb.ControlIDontWant{newIDontWant},
+						}}, from: rpc.from}
+					}
+				}
+				for _, msgID := range idontwant.GetMessageIDs() {
+					if nextRPC.Control.Idontwant[0].MessageIDs = append(nextRPC.Control.Idontwant[0].MessageIDs, msgID); nextRPC.Size() > limit {
+						nextRPC.Control.Idontwant[0].MessageIDs = nextRPC.Control.Idontwant[0].MessageIDs[:len(nextRPC.Control.Idontwant[0].MessageIDs)-1]
+						if !yield(nextRPC) {
+							return
+						}
+						nextRPC = RPC{RPC: pb.RPC{Control: &pb.ControlMessage{
+							Idontwant: []*pb.ControlIDontWant{{MessageIDs: []string{msgID}}},
+						}}, from: rpc.from}
+					}
+				}
+			}
 		}
 
 		if nextRPC.Size() > 0 {
@@ -507,6 +564,15 @@ func (rpc *RPC) split(limit int) iter.Seq[RPC] {
 			}
 		}
 	}
+}
+
+// rpcIsEmpty reports whether the RPC carries nothing: it encodes to zero
+// bytes, or to nothing but an empty control message.
+func rpcIsEmpty(rpc *RPC) bool {
+	if rpc.Control != nil && rpc.Control.Size() == 0 {
+		return rpc.Size() == pbFieldNumberLT15Size+sizeOfEmbeddedMsg(0)
+	}
+	return rpc.Size() == 0
 }
 
 // pbFieldNumberLT15Size is the number of bytes required to encode a protobuf
